@@ -1,6 +1,6 @@
 (* C13 — Overlap resolution returns a conflict-free subset of the lints.
    This file pins the statements; it contains nothing but `exact`. *)
-Require Import Base Overlap Suggestion OverlapProofs SuggestionProofs BackToFront.
+Require Import Base Overlap Suggestion OverlapProofs SuggestionProofs BackToFront Tables_overlapcallers OverlapCallers.
 From Coq Require Import Sorting.Sorted Sorting.Permutation.
 
 (* nothing invented, nothing altered: the result is a subsequence of the key-sorted input, the sort
@@ -78,6 +78,16 @@ Check C13_back_to_front : forall src sug ls,
   apply_back_to_front src (edits sug (remove_overlaps ls))
   = Ok (splice_sim 0 src (edits sug (remove_overlaps ls))).
 Print Assumptions C13_back_to_front.
+
+(* the tie for "the lints that the JS API and the CLI report": the four call sites (wasm Linter::lint,
+   the CLI lint command, CurrencyPlacement, the merge_linters! macro) still pass their lints through
+   remove_overlaps unconditionally before they leave — table regenerated from the sources every run *)
+Theorem C13_callers_apply_it :
+  forallb (fun e => snd e) overlap_call_sites = true /\ List.length overlap_call_sites = 4.
+Proof. exact overlap_call_sites_ok. Qed.
+Check C13_callers_apply_it :
+  forallb (fun e => snd e) overlap_call_sites = true /\ List.length overlap_call_sites = 4.
+Print Assumptions C13_callers_apply_it.
 
 (* non-vacuity: nested, touching, equal and zero-width spans *)
 Example C13_nonvacuous :
